@@ -5,7 +5,7 @@ import itertools
 
 from vlib import env
 import tables
-from checks.common import make_replay, t_oblig, bounded_part, want, contract_sources
+from checks.common import anchored, make_replay, t_oblig, bounded_part, want, contract_sources
 from pysym.harness import run_cases
 
 LEVEL = 'proof'
@@ -31,6 +31,7 @@ def main(run):
                            ('MoleculeStereo._translate_tetrahedron_sign', 'MoleculeStereo._translate_cis_trans_sign',
                             'MoleculeStereo._translate_allene_sign', '_pyramid_sign', '_cis_trans_sign', '_allene_sign')])
     if want(run, 'T'):
+      with anchored(run, 'C12/T'):
         tree = tables.module_ast('chython/algorithms/stereo.py')
         tt = tables.literal_assign(tree, '_tetrahedron_translate')
         at = tables.literal_assign(tree, '_alkene_translate')
@@ -56,6 +57,7 @@ def main(run):
                     what=f'_alkene_translate[{k}] = {at.get(k)}, expected {exp} (flip iff exactly one end uses its second substituent)',
                     witness={'key': k, 'value': at.get(k)})
     if want(run, 'P'):
+      with anchored(run, 'C12/P'):
         run_cases(run, 'contracts.stereo')
     bounded_part(run, 'C12')
     run.assume('atom numbers enter the sign translators only through == / tuple.index (checked: the stub atoms raise on any other use)',
